@@ -56,12 +56,30 @@ def attach_controls(w, wn, scn, link_of):
         wn.add_control("rule%d" % i, C.Rule(_cond(w, wn, r["cond"]), then, els or None, priority=r["prio"]))
 
 
-def run_wntr(w, wn, **kw):
+class RunHangs(Exception):
+    """run_sim did not return within the wall-clock limit (it must always terminate, C16)"""
+
+
+def run_wntr(w, wn, limit=180, **kw):
+    import signal
+    import threading
     import warnings
     sim = w.sim.WNTRSimulator(wn)
-    with warnings.catch_warnings(record=True) as wlist:
-        warnings.simplefilter("always")
-        res = sim.run_sim(**kw)
+    use_alarm = threading.current_thread() is threading.main_thread()
+
+    def on_alarm(signum, frame):
+        raise RunHangs("run_sim still running after %d s" % limit)
+    if use_alarm:
+        old = signal.signal(signal.SIGALRM, on_alarm)
+        signal.alarm(limit)
+    try:
+        with warnings.catch_warnings(record=True) as wlist:
+            warnings.simplefilter("always")
+            res = sim.run_sim(**kw)
+    finally:
+        if use_alarm:
+            signal.alarm(0)
+            signal.signal(signal.SIGALRM, old)
     return res, [str(x.message) for x in wlist]
 
 
@@ -131,6 +149,9 @@ def build(w, s):
                                             end_time=lk["end"] if lk["end"] >= 0 else None)
     attach_controls(w, wn, s, lambda k: wn.get_link(s["links"][k - 1]["name"]))
     C = w.network.controls
+    for i, c in enumerate(s.get("sctl", [])):       # time controls on a valve setting
+        wn.add_control("sctl%d" % i, C.Control(C.SimTimeCondition(wn, "=", int(c["thr"])),
+                                               C.ControlAction(wn.get_link(c["link"]), "setting", c["val"])))
     for i, c in enumerate(s.get("cctl", [])):
         link = wn.get_link(c["link"])
         if c["what"] == "status":
